@@ -28,7 +28,7 @@ pub struct Ctx {
 }
 
 impl Ctx {
-    fn pool(&mut self, n: usize) -> &rayon::ThreadPool {
+    pub fn pool(&mut self, n: usize) -> &rayon::ThreadPool {
         self.pools.entry(n).or_insert_with(|| {
             rayon::ThreadPoolBuilder::new()
                 .num_threads(n)
@@ -117,6 +117,11 @@ fn imgop(ctx: &mut Ctx, case: &Value, out: &mut Map<String, Value>) {
     }
     if has(&log, "dst0") {
         out.insert("dst0".into(), json!(bytes_to_vals(dp.pt, &dp.logical_bytes())));
+    }
+    let dst0_bytes = dp.logical_bytes();
+    if sp.is_none() && has(&log, "src") {
+        // in-place operation: its input is the initial content of the image
+        out.insert("src".into(), json!(bytes_to_vals(dp.pt, &dst0_bytes)));
     }
     let src_before = sp.as_ref().map(|s| s.buf.as_slice().to_vec());
     let dst_out_before = dp.outside_bytes();
@@ -222,6 +227,14 @@ fn imgop(ctx: &mut Ctx, case: &Value, out: &mut Map<String, Value>) {
     if has(&log, "dstbits") {
         out.insert("dstbits".into(), json!(bytes_to_f32bits(&dp.logical_bytes())));
     }
+    if has(&log, "f32d") {
+        if let Some(sp) = &sp {
+            out.insert("srcd".into(), f32_dyadic_arrays(&sp.logical_bytes()));
+        } else {
+            out.insert("srcd".into(), f32_dyadic_arrays(&dst0_bytes));
+        }
+        out.insert("dstd".into(), f32_dyadic_arrays(&dp.logical_bytes()));
+    }
     if has(&log, "digest") {
         out.insert("dig".into(), json!(digest(&dp.logical_bytes())));
     }
@@ -322,6 +335,7 @@ fn run_case(ctx: &mut Ctx, case: &Value) -> Value {
         "split" => misc::split(case, &mut out),
         "fitcrop" => misc::fitcrop(case, &mut out),
         "coeffs" => misc::coeffs(case, &mut out),
+        "alpha_table" => misc::alpha_table(ctx, case, &mut out),
         "marker" => {
             out.insert("ret".into(), json!("ok"));
         }
